@@ -463,6 +463,32 @@ theorem api_limit_loses_dump (enc : List E → Bytes) (dec : Bytes → Option (L
   simp only [apiLoad, hn, if_false]
   exact load_prefix enc dec hcodec blocks hfit _ false _ (List.take_prefix _ _) (fun h => by cases h) (by omega)
 
+/-- What the backend holds for a configured `size` (`pkg/cache` `Opts.init`:
+"If size is < 1024, 1024 will be used"). -/
+def backendCap (size : Nat) : Nat := if size < 1024 then 1024 else size
+
+/-- A body cap computed from the CONFIGURED size (`size * perEntry + room`) is
+below the dump of a cache this mosdns can hold, for every size under the
+documented minimum: the backend holds 1024 entries whatever `size` says, and
+1024 entries of `entryLen` octets each outgrow the cap as soon as
+`size * perEntry + room < 1024 * entryLen` (size 4, 8 KiB per entry, 4 KiB room:
+entries of 37 octets). -/
+theorem size_derived_cap_too_small (size perEntry room entryLen : Nat) (hs : size < 1024)
+    (h : size * perEntry + room < 1024 * entryLen) :
+    ∃ n, n ≤ backendCap size ∧ size * perEntry + room < n * entryLen :=
+  ⟨1024, by simp [backendCap, hs], h⟩
+
+/-- ... and such a handler loses that dump: an error and only the blocks inside the cap. -/
+theorem size_derived_limit_loses_dump (enc : List E → Bytes) (dec : Bytes → Option (List E)) (hcodec : ∀ b, dec (enc b) = some b)
+    (blocks : List (List E)) (hfit : ∀ b ∈ blocks, (enc b).length ≤ maxBlock) (size perEntry room : Nat)
+    (_hheld : blocks.flatten.length ≤ backendCap size)
+    (hbig : size * perEntry + room < (plain enc blocks).length) :
+    (apiLoad dec (blocks.length + 1) (some (size * perEntry + room)) (plain enc blocks)).2 = true := by
+  rw [api_limit_loses_dump enc dec hcodec blocks hfit _ hbig]
+
+example : backendCap 4 = 1024 ∧ backendCap 0 = 1024 ∧ backendCap 1023 = 1024 ∧ backendCap 65536 = 65536 := by decide
+example : 4 * 8192 + 4096 < 1024 * 37 := by decide
+
 /-! ### Non-vacuity: two blocks over a toy codec (`enc` = identity on byte lists) -/
 def encT : List UInt8 → Bytes := id
 def decT : Bytes → Option (List UInt8) := some
